@@ -1,4 +1,57 @@
-From Coq Require Import ZArith List Bool.
-From PW Require Import Model.Base Model.Formats.
-Theorem C03_placeholder : True. Proof. exact I. Qed.
-Print Assumptions C03_placeholder.
+(* C03 — Attestation statements bind credential, ceremony data and format rules. *)
+From Coq Require Import ZArith List Bool String.
+From PW Require Import Model.Base Model.Cbor Model.AuthData Model.Oracles Model.CredJson Model.Cose Model.SigAlg Model.Tpm Model.Formats Spec.RegSpec
+  Model.VerifyReg Spec.FormatSpec Proofs.FormatProofs Proofs.RegProofs.
+Import ListNotations.
+Open Scope Z_scope.
+
+(* One soundness theorem per format verifier, for ARBITRARY oracles: acceptance implies the declared rules,
+   each stated over exactly the authenticator data and client data presented (auth_data ++ SHA-256(cdj)) and
+   the credential public key that registration returns. *)
+Theorem C03_packed : forall O now st ad cdj pk roots,
+  verify_packed O now st ad cdj pk roots = Ok tt -> PackedOk O now st ad cdj pk roots.
+Proof. exact verify_packed_sound. Qed.
+Print Assumptions C03_packed.
+
+Theorem C03_fido_u2f : forall O now st cdj rph cid pk aaguid roots,
+  verify_fido_u2f O now st cdj rph cid pk aaguid roots = Ok tt -> U2fOk O now st cdj rph cid pk aaguid roots.
+Proof. exact verify_fido_u2f_sound. Qed.
+Print Assumptions C03_fido_u2f.
+
+Theorem C03_tpm : forall O now st ad cdj pk roots,
+  verify_tpm O now st ad cdj pk roots = Ok tt -> TpmOk O now st ad cdj pk roots.
+Proof. exact verify_tpm_sound. Qed.
+Print Assumptions C03_tpm.
+
+Theorem C03_tpm_aik_profile : forall c, check_aik_cert c = Ok tt -> AikOk c.
+Proof. exact check_aik_cert_sound. Qed.
+Print Assumptions C03_tpm_aik_profile.
+
+Theorem C03_apple : forall O now st ad cdj pk roots builtin,
+  verify_apple O now st ad cdj pk roots builtin = Ok tt -> AppleOk O now st ad cdj pk roots builtin.
+Proof. exact verify_apple_sound. Qed.
+Print Assumptions C03_apple.
+
+Theorem C03_android_key : forall O now st ad cdj pk roots builtin,
+  verify_android_key O now st ad cdj pk roots builtin = Ok tt -> AndroidKeyOk O now st ad cdj pk roots builtin.
+Proof. exact verify_android_key_sound. Qed.
+Print Assumptions C03_android_key.
+
+Theorem C03_android_safetynet : forall O now st ad cdj roots builtin,
+  verify_safetynet O now st ad cdj roots builtin = Ok tt -> SafetyNetOk O now st ad cdj roots builtin.
+Proof. exact verify_safetynet_sound. Qed.
+Print Assumptions C03_android_safetynet.
+
+(* the statement verifier is handed the raw authenticator data of the attestation object, the raw client data
+   and the credential public key bytes that are returned: an accepted registration went through the dispatch
+   on exactly those *)
+Theorem C03_wiring : forall O P c r, verify_reg_rec O P c = Ok r ->
+  exists ao att fmt, parse_att_object (rcr_att_obj c) = Ok ao /\ ad_att (ao_auth_data ao) = Some att /\
+    ao_fmt ao = CText fmt /\ vr_pubkey r = ac_pubkey att /\ vr_cred_id r = ac_cred_id att /\
+    verify_statement O P fmt (ao_stmt ao) (ao_auth_data_raw ao) (rcr_client_data c) (ao_auth_data ao) att = Ok tt.
+Proof.
+  intros O P c r H. apply verify_reg_rec_sound in H.
+  destruct H as [_ _ _ (ao & h & att & dk & alg & fmt & ag & Hao & _ & _ & _ & _ & Hatt & _ & _ & _ & _ & _ & _ & Hfmt & Hst & _ & _ & ->)].
+  exists ao, att, fmt. cbn. repeat split; auto.
+Qed.
+Print Assumptions C03_wiring.
